@@ -648,7 +648,7 @@ Inductive kev :=
 | KRecv (fd n : N) | KShutdown (fd : N) | KClose (fd : N) | KDeliver (p : packet) | KEgress
 | KUdpSend (fd : N) (pl : list N) (dst : sockaddr)
 | KUdpConnect (fd : N) (peer : sockaddr) | KUdpSendC (fd : N) (pl : list N)
-| KSetIsn (v : N).
+| KSetIsn (v : N) | KSetCursor (v : N).
 
 Definition kstep (k : kernel) (e : kev) : kernel :=
   match e with
@@ -667,6 +667,7 @@ Definition kstep (k : kernel) (e : kev) : kernel :=
   | KUdpConnect fd p => fst (k_udp_connect k fd p)
   | KUdpSendC fd pl => fst (k_udp_send k fd pl)
   | KSetIsn v => set_isn k v
+  | KSetCursor v => set_cursor k v
   end.
 
 Definition krun (k : kernel) (es : list kev) : kernel := fold_left kstep es k.
@@ -693,6 +694,7 @@ Proof.
   - apply KInv_k_udp_send_to, H.
   - apply KInv_k_udp_connect, H.
   - apply KInv_k_udp_send, H.
+  - split; [|reflexivity]. eapply KInv_same; [| | |exact H]; reflexivity.
   - split; [|reflexivity]. eapply KInv_same; [| | |exact H]; reflexivity.
 Qed.
 
@@ -861,6 +863,9 @@ Proof.
   - (* ESetIsn *)
     destruct (get_host w h) as [k|] eqn:G; [|assumption]. pose proof (WReach_get _ _ _ H G) as Hk.
     apply WReach_set_host; [assumption|]. apply (kreach_kstep k (KSetIsn v) Hk).
+  - (* ESetCursor *)
+    destruct (get_host w h) as [k|] eqn:G; [|assumption]. pose proof (WReach_get _ _ _ H G) as Hk.
+    apply WReach_set_host; [assumption|]. apply (kreach_kstep k (KSetCursor v) Hk).
 Qed.
 
 Lemma WReach_init c v n : WReach (init_world c v n).
